@@ -1,0 +1,50 @@
+//go:build verif
+
+package escape
+
+// Contracts for the goverif VC generator (/verif). Comment-only file: it adds no code.
+
+// ---- C35: escape/eschtml/escurl and their ! forms, as methods ---------------------------------------------
+// What is handed to the library function is exactly the bytes read from stdin, what is written to
+// stdout is exactly the bytes of the library function's result, and the ! form selects the inverse
+// function. With the library's inverse laws (specs/stdlib.spec) the round trip is the identity.
+
+//@ func cmdEscape [C35]
+//@   check none
+//@   requires p != nil && p.IsMethod
+//@   ensures imp(result == nil, called("(lang/stdio.Io).Write") && called("(lang/stdio.Io).ReadAll"))
+//@   ensures imp(result == nil, ite(p.IsNot, called("strconv.Unquote"), called("strconv.Quote")))
+//@   at call strconv.Quote#* assert !p.IsNot && bytesof(arg0, b)
+//@   at call strconv.Unquote#* assert p.IsNot && bytesof(arg0, b)
+//@   at call (lang/stdio.Io).Write#* assert bytesof(str, arg0)
+//@   at call (lang/stdio.Io).Write#* assert forallstr(t, imp(bytesof(t, b) && !p.IsNot, str == $quote(t)))
+//@   at call (lang/stdio.Io).Write#* assert forallstr(t, imp(bytesof(t, b) && p.IsNot && $unquoteOk(t), str == $unquote(t)))
+
+//@ func cmdHtml [C35]
+//@   check none
+//@   requires p != nil && p.IsMethod
+//@   ensures imp(result == nil, called("(lang/stdio.Io).Write") && called("(lang/stdio.Io).ReadAll"))
+//@   ensures imp(result == nil, ite(p.IsNot, called("html.UnescapeString"), called("html.EscapeString")))
+//@   at call html.EscapeString#* assert !p.IsNot && bytesof(arg0, b)
+//@   at call html.UnescapeString#* assert p.IsNot && bytesof(arg0, b)
+//@   at call (lang/stdio.Io).Write#* assert bytesof(str, arg0)
+//@   at call (lang/stdio.Io).Write#* assert forallstr(t, imp(bytesof(t, b) && !p.IsNot, str == $htmlEsc(t)))
+//@   at call (lang/stdio.Io).Write#* assert forallstr(t, imp(bytesof(t, b) && p.IsNot, str == $htmlUnesc(t)))
+
+//@ func cmdUrl [C35]
+//@   check none
+//@   requires p != nil && p.IsMethod
+//@   ensures imp(result == nil, called("(lang/stdio.Io).Write") && called("(lang/stdio.Io).ReadAll"))
+//@   ensures imp(result == nil, ite(p.IsNot, called("net/url.PathUnescape"), called("net/url.PathEscape")))
+//@   at call net/url.PathEscape#* assert !p.IsNot && bytesof(arg0, b)
+//@   at call net/url.PathUnescape#* assert p.IsNot && bytesof(arg0, b)
+//@   at call (lang/stdio.Io).Write#* assert bytesof(str, arg0)
+//@   at call (lang/stdio.Io).Write#* assert forallstr(t, imp(bytesof(t, b) && !p.IsNot, str == $urlEsc(t)))
+//@   at call (lang/stdio.Io).Write#* assert forallstr(t, imp(bytesof(t, b) && p.IsNot, str == $urlUnesc(t)))
+
+//@ func verifLemmaEscapeRoundTrip [C35]
+//@   ensures result1 == nil && result == s
+//@ func verifLemmaHtmlRoundTrip [C35]
+//@   ensures result == s
+//@ func verifLemmaUrlRoundTrip [C35]
+//@   ensures result1 == nil && result == s
